@@ -120,9 +120,180 @@ let run_fd (args : sexp list) : string =
      | _ -> "panic")
   | _ -> failwith "bad fd case"
 
+
+(* ---------- programs ---------- *)
+let names : (string, int) Hashtbl.t = Hashtbl.create 64
+let intern (s : string) : nat =
+  let i = (match Hashtbl.find_opt names s with
+           | Some i -> i
+           | None -> let i = Hashtbl.length names + 1 in Hashtbl.add names s i; i) in
+  nat_of_int i
+
+let n_of_int (n : int) : n = N.of_nat (nat_of_int n)
+let is_int s = (try ignore (int_of_string s); true with _ -> false)
+
+let rec parse_term (e : sexp) : term =
+  match e with
+  | A "nil" -> TEmpty
+  | A "_" -> TVar (O, true)
+  | A "#t" -> TVal (LBool true)
+  | A "#f" -> TVal (LBool false)
+  | A s -> if is_int s || (String.length s > 1 && s.[0] = '-') then TVal (LNum (z_of_string s)) else TVar (intern s, false)
+  | L [A "s"; A i] -> TVal (LStr (n_of_int (int_of_string i)))
+  | L [A "c"; A i] -> TVal (LChar (n_of_int (int_of_string i)))
+  | L [A "cons"; h; t] -> TCons (parse_term h, parse_term t)
+  | L (A "list" :: xs) -> list_term (List.map parse_term xs)
+  | L (A "ilist" :: xs) ->
+    let r = List.rev (List.map parse_term xs) in
+    (match r with last :: front -> improper_term (List.rev front) last | [] -> failwith "ilist")
+  | L (A "comp" :: A tag :: xs) ->
+    let rec mk = function [] -> TNil | x :: r -> TMore (parse_term x, mk r) in
+    TComp (intern ("comp:" ^ tag), mk xs)
+  | _ -> failwith "bad term"
+
+let parse_fd_dom (e : sexp) : fd =
+  match parse_fd e with Some d -> d | None -> failwith "empty domain vector"
+
+let rec parse_goal (e : sexp) : goal =
+  match e with
+  | A "true" -> GTrue
+  | A "false" -> GFalse
+  | L [A "eq"; u; v] -> GEq (parse_term u, parse_term v)
+  | L [A "neq"; u; v] -> GDiseq (parse_term u, parse_term v)
+  | L (A "conj" :: gs) -> GConj (List.map parse_goal gs)
+  | L (A "fresh" :: L xs :: gs) -> GFresh (List.map (fun x -> intern (atom x)) xs, List.map parse_goal gs)
+  | L (A "cond" :: cs) -> GCond (parse_body cs)
+  | L (A "conda" :: cs) -> GConda (parse_body cs)
+  | L (A "condu" :: cs) -> GCondu (parse_body cs)
+  | L (A "onceo" :: cs) -> GOnceo (parse_body cs)
+  | L (A "loop" :: cs) -> GLoop (parse_body cs)
+  | L (A "dfs" :: cs) -> GDfs (parse_body cs)
+  | L (A "closure" :: gs) -> GClosure (List.map parse_goal gs)
+  | L (A "call" :: A r :: args) -> GCall (intern ("rel:" ^ r), List.map parse_term args)
+  | L (A "lib" :: A r :: args) -> GCall (intern ("lib:" ^ r), List.map parse_term args)
+  | L (A "rel" :: A r :: args) ->
+    let k = (match r with
+      | "ltefd" -> RLte | "ltfd" -> RLt | "plusfd" -> RPlus | "minusfd" -> RMinus | "timesfd" -> RTimes
+      | "diseqfd" -> RDiseqFd | "distinctfd" -> RDistinct | "plusz" -> RPlusZ | "timesz" -> RTimesZ
+      | _ -> failwith "bad rel") in
+    GRel (k, List.map parse_term args)
+  | L [A "dom"; t; d] -> GDom (parse_term t, parse_fd_dom d)
+  | L (A mk :: t :: arms) when mk = "match" || mk = "matche" || mk = "matcha" || mk = "matchu" ->
+    let k = (match mk with "matcha" -> MMatcha | "matchu" -> MMatchu | _ -> MMatch) in
+    GMatch (k, parse_term t, List.map (fun a ->
+      match a with
+      | L (A "arm" :: L (A "pats" :: ps) :: body) -> (List.map parse_term ps, List.map parse_goal body)
+      | _ -> failwith "bad arm") arms)
+  | L (A "for" :: A x :: coll :: cs) -> GFor (intern x, parse_term coll, parse_body cs)
+  | L (A "project" :: L xs :: gs) -> GProject (List.map (fun x -> intern (atom x)) xs, List.map parse_goal gs)
+  | L [A "probe"; A tag] -> GProbe (intern ("probe:" ^ tag))
+  | _ -> failwith "bad goal"
+and parse_body (cs : sexp list) : goal list list =
+  List.map (fun c -> match c with
+    | L (A "conj" :: gs) -> List.map parse_goal gs
+    | g -> [parse_goal g]) cs
+
+let parse_def (prefix : string) (e : sexp) : nat * def =
+  match e with
+  | L [A "def"; A name; L (A "params" :: ps); A mode; body] ->
+    (intern (prefix ^ name),
+     { d_params = List.map (fun p -> intern (atom p)) ps; d_closure = (mode = "closure"); d_body = parse_goal body })
+  | _ -> failwith "bad def"
+
+let lib_defs : (nat * def) list Lazy.t = lazy (
+  match Sys.getenv_opt "PV_LIBDEFS" with
+  | None -> []
+  | Some path ->
+    let ic = open_in path in
+    let acc = ref [] in
+    (try while true do
+       let line = input_line ic in
+       if String.length line > 0 && line.[0] = '(' then acc := parse_def "lib:" (parse_sexp line) :: !acc
+     done with End_of_file -> close_in ic);
+    List.rev !acc)
+
+let buf_add = Buffer.add_string
+let rec show_term (b : Buffer.t) (t : term) : unit =
+  match t with
+  | TVal (LNum z) -> buf_add b (string_of_z z)
+  | TVal (LBool true) -> buf_add b "#t"
+  | TVal (LBool false) -> buf_add b "#f"
+  | TVal (LChar c) -> buf_add b ("'" ^ string_of_int (int_of_nat (N.to_nat c)))
+  | TVal (LStr s) -> buf_add b ("\"s" ^ string_of_int (int_of_nat (N.to_nat s)) ^ "\"")
+  | TVar (v, true) -> buf_add b ("_" ^ string_of_int (int_of_nat v))
+  | TVar (v, false) -> buf_add b ("?" ^ string_of_int (int_of_nat v))
+  | TEmpty -> buf_add b "()"
+  | TCons (_, _) ->
+    buf_add b "(";
+    let rec go first t =
+      (match t with
+       | TCons (h, tl) -> if not first then buf_add b " "; show_term b h; go false tl
+       | TEmpty -> ()
+       | other -> buf_add b " . "; show_term b other) in
+    go true t; buf_add b ")"
+  | TComp (tag, cs) ->
+    let name = Hashtbl.fold (fun k v acc -> if v = int_of_nat tag then k else acc) names "?" in
+    let name = if String.length name > 5 then String.sub name 5 (String.length name - 5) else name in
+    buf_add b ("{" ^ name);
+    let rec go = function TNil -> () | TMore (t, r) -> buf_add b " "; show_term b t; go r in
+    go cs; buf_add b "}"
+
+let term_str t = let b = Buffer.create 32 in show_term b t; Buffer.contents b
+let show_constraint (ps : (nat * term) list) : string =
+  let pairs = List.map (fun (k, v) -> "(" ^ term_str (TVar (k, true)) ^ " " ^ term_str v ^ ")") ps in
+  "(" ^ String.concat " " (List.sort compare pairs) ^ ")"
+let rec shape (t : term) : string =
+  match t with
+  | TVar (_, _) -> "?"
+  | TCons (h, tl) -> "(. " ^ shape h ^ " " ^ shape tl ^ ")"
+  | TComp (_, cs) -> let rec go = function TNil -> "" | TMore (t, r) -> " " ^ shape t ^ go r in "{" ^ go cs ^ "}"
+  | other -> term_str other
+let tag_name (tag : nat) : string =
+  let name = Hashtbl.fold (fun k v acc -> if v = int_of_nat tag then k else acc) names "?" in
+  if String.length name > 6 then String.sub name 6 (String.length name - 6) else name
+let show_probe (e : uevent) : string =
+  match e with
+  | UProbe (tag, w, t, n, x, ext) ->
+    Printf.sprintf "(probe %s %d %d %d %d (%s))" (tag_name tag) (int_of_nat w) (int_of_nat t) (int_of_nat n) (int_of_nat x)
+      (String.concat " " (List.sort compare (List.map (fun (_, v) -> shape v) ext)))
+  | _ -> ""
+
+let run_prog (args : sexp list) : string =
+  match args with
+  | [L (A "defs" :: ds); L (A "query" :: L qs :: body); L [A "max"; A m]; L [A "budget"; A bdg]] ->
+    let defs = Lazy.force lib_defs @ List.map (parse_def "rel:") ds in
+    let qnames = List.map (fun x -> intern (atom x)) qs in
+    let nvars = nat_of_int (List.length qs) in
+    let goals = List.map parse_goal body in
+    let (g, st) = query_goal defs nvars qnames goals in
+    let s0 = start defs sfuel g st in
+    let ((answers, fin), _) = run_query defs (nat_of_int (int_of_string m)) (nat_of_int (int_of_string bdg)) nvars s0 [] in
+    let b = Buffer.create 256 in
+    let lineages = ref [] in
+    List.iter (fun (a, steps) ->
+      buf_add b "(ans (";
+      List.iteri (fun i t -> if i > 0 then buf_add b " "; show_term b t) a.a_terms;
+      buf_add b ") (";
+      buf_add b (String.concat " " (List.sort compare (List.map show_constraint a.a_constraints)));
+      buf_add b ") (";
+      List.iteri (fun i t ->
+        if i > 0 then buf_add b " ";
+        buf_add b ("(" ^ String.concat " " (List.sort compare (List.map show_constraint (relevant_constraints t a.a_constraints))) ^ ")")) a.a_terms;
+      buf_add b (") " ^ string_of_int (int_of_nat steps) ^ ") ");
+      if a.a_probes <> [] then
+        lineages := ("(lineage " ^ String.concat " " (List.map show_probe a.a_probes) ^ ")") :: !lineages) answers;
+    let fin_s = (match fin with
+      | EDone -> "done" | ELimit -> "limit" | EBudget -> "budget"
+      | EError (true, _) -> "oof"
+      | EError (false, site) -> "panic:" ^ string_of_int (int_of_nat site)) in
+    buf_add b ("(end " ^ fin_s ^ ") (probes " ^ String.concat " " (List.rev !lineages) ^ ")");
+    Buffer.contents b
+  | _ -> failwith "bad prog"
+
 let run_case (e : sexp) : string =
   match e with
   | L (A "fd" :: args) -> run_fd args
+  | L (A "prog" :: args) -> run_prog args
   | _ -> failwith "unknown case kind"
 
 let () =
